@@ -27,6 +27,7 @@ def _m1():
         ('cell-', 'rack:0'), ('cell+', 'rack:0'),
         ('blk', 's0', 1), ('blk', 's0', 0),
         ('tick', 40), ('noop',), ('restart',),
+        ('dup', 0, 's0'), ('dup', 0, 's1'),
     )
     return cfg
 
@@ -34,8 +35,15 @@ def _m1():
 def _m4():
     cfg = mastercfg.m4()
     cfg['monitors'] = [mastermon.mon_c09]
+    # an identity holder evicted first (not enough room), then a bigger
+    # instance (enough): the holder comes back in place within the cycle
+    cfg['templates']['big'] = {'memory': '8M', 'cpu': '8%', 'disk': '8M',
+                               'affinity': 'f', 'priority': 60}
+    cfg['templates']['mid'] = {'memory': '8M', 'cpu': '8%', 'disk': '8M',
+                               'affinity': 'm', 'priority': 100}
     cfg['events'] = mastercfg.ev(
-        ('app+', 'id'), ('app+', 'ls'), ('app-', 0), ('app-', 1),
+        ('app+', 'id'), ('app+', 'ls'), ('app+', 'big'), ('app+', 'mid'),
+        ('app-', 0), ('app-', 1),
         ('idg', 'g', 1), ('idg', 'g', 2), ('idg', 'g', 3),
         ('pres-', 's0'), ('pres+', 's0', 0), ('srv', 's0', 1),
         ('noop',), ('restart',),
